@@ -1,5 +1,5 @@
 """C11 — RadioTap fields can be set in any order and read back."""
-import itertools, os, random, sys
+import glob, itertools, os, random, sys
 from vlib import core, corr
 
 sys.path.insert(0, os.path.join(core.VERIF, "translator"))
@@ -292,11 +292,14 @@ def layout_case(rng, maxlen=12):
     return ops
 
 
-# KF-C11-6, reproduced on every run: FLAGS in the first present word, which announces a vendor namespace; the vendor
-# present word has bit 0, the vendor data starts with a zero byte; rate(9) erases that byte
-KF6_CASE = ["parse 00001d00020000c00100000000001122010400deadbeef999897969594", "set rate 09"]
-# KF-C11-5 (fixed): a field above every field of the first word used to land among the last word's fields
-KF5_CASE = ["parse 00001900010000a00200000000000000010203040506070802", "set rate 09", "set flags 00"]
+def corpus_cases():
+    """minimised replays of the findings of this property (known_findings.d/C11.jsonl); run first on every run — the
+    known finding KF-C11-6 is reported because it is observed, the fixed ones must stay quiet"""
+    out = []
+    for f in sorted(glob.glob(os.path.join(core.VERIF, "corpus", "C11", "*.ops"))):
+        ops = [l.rstrip("\n") for l in open(f) if l.strip() and not l.startswith("#")]
+        out += corr.split_cases(ops, CASE_START)
+    return out
 
 
 def classify(op, impl):
@@ -348,8 +351,7 @@ def run(chk):
 
     quick = chk.tier == "quick"
     go([["tail"]])
-    go([KF6_CASE])
-    go([KF5_CASE])
+    go(corpus_cases())
     ex = exhaustive_cases(chk.tier, rng)
     chk.extra["exhaustive_cases"] = len(ex)
     go_all(ex[:200], 200)
